@@ -110,6 +110,7 @@ impl<T> From<T> for Commented<T> {
 }
 
 #[derive(Debug, Clone, PartialEq, Serialize, Deserialize)]
+#[cfg_attr(feature = "verif-hooks", repr(u64))] // verif hook: word-sized direct tag (layout only)
 pub enum Expr {
     // Literals
     Number(f64),
@@ -196,6 +197,7 @@ pub struct RecordEntry {
 }
 
 #[derive(Debug, Clone, PartialEq, Serialize, Deserialize)]
+#[cfg_attr(feature = "verif-hooks", repr(u64))] // verif hook: word-sized direct tag (layout only)
 pub enum RecordKey {
     Static(String),
     Dynamic(Box<SpannedExpr>),
@@ -204,6 +206,7 @@ pub enum RecordKey {
 }
 
 #[derive(Debug, Clone, Copy, PartialEq, Eq, Serialize, Deserialize)]
+#[cfg_attr(feature = "verif-hooks", repr(u64))] // verif hook: word-sized direct tag (layout only)
 pub enum BinaryOp {
     // Arithmetic
     Add,
@@ -243,6 +246,7 @@ pub enum BinaryOp {
 }
 
 #[derive(Debug, Clone, Copy, PartialEq, Eq, Serialize, Deserialize)]
+#[cfg_attr(feature = "verif-hooks", repr(u64))] // verif hook: word-sized direct tag (layout only)
 pub enum UnaryOp {
     Negate,
     Not,
@@ -250,6 +254,7 @@ pub enum UnaryOp {
 }
 
 #[derive(Debug, Clone, Copy, PartialEq, Eq, Serialize, Deserialize)]
+#[cfg_attr(feature = "verif-hooks", repr(u64))] // verif hook: word-sized direct tag (layout only)
 pub enum PostfixOp {
     Factorial,
 }
